@@ -57,7 +57,22 @@ func strEq(a, b StrV) string {
 	if aok && bok {
 		return charsEq(ac, bc)
 	}
-	// opaque vs literal of known length etc.
+	// opaque vs literal: known prefix / minimum length may decide it
+	if a.K == SLit {
+		a, b = b, a
+	}
+	if a.K == SOpaque && b.K == SLit {
+		if a.Min > len(b.S) {
+			return "false"
+		}
+		n := len(a.Pre)
+		if n > len(b.S) {
+			n = len(b.S)
+		}
+		if a.Pre[:n] != b.S[:n] {
+			return "false"
+		}
+	}
 	return tEq(a.term(), b.term())
 }
 
@@ -76,7 +91,31 @@ func strConcat(a, b StrV) StrV {
 	if aok && bok {
 		return StrV{K: SChars, C: append(append([]string(nil), ac...), bc...)}
 	}
-	return opaqueStr("(str.++ " + a.term() + " " + b.term() + ")")
+	r := opaqueStr("(str.++ " + a.term() + " " + b.term() + ")")
+	switch {
+	case a.K == SLit:
+		r.Pre = a.S
+		if b.K == SOpaque {
+			r.Pre += b.Pre
+		}
+	case a.K == SOpaque:
+		r.Pre = a.Pre
+	}
+	r.Min = minLen(a) + minLen(b)
+	return r
+}
+
+func minLen(a StrV) int {
+	switch a.K {
+	case SLit:
+		return len(a.S)
+	case SChars:
+		return len(a.C)
+	}
+	if a.Min > len(a.Pre) {
+		return a.Min
+	}
+	return len(a.Pre)
 }
 
 func strConcatN(parts ...StrV) StrV {
@@ -160,6 +199,14 @@ func strHasPrefix(a, p StrV) string {
 	}
 	if p.K == SLit && p.S == "" {
 		return "true"
+	}
+	if a.K == SOpaque && p.K == SLit {
+		if len(a.Pre) >= len(p.S) {
+			return fmt.Sprint(strings.HasPrefix(a.Pre, p.S))
+		}
+		if !strings.HasPrefix(p.S, a.Pre) {
+			return "false"
+		}
 	}
 	return "(str.prefixof " + p.term() + " " + a.term() + ")"
 }
